@@ -185,6 +185,7 @@ BLOCK_UNITS = {
                                                           "from_rng", "try_from_rng")]),
 }
 UNIT_OF_REPORT = {"Hc128Fns": "Hc128Core"}
+UNIT_BUDGET_S = 170
 
 def load_block(repo):
     out = {}
@@ -859,6 +860,10 @@ def run_block_unit(unit, spec, repo, pinned, only, timeout_ms, wall_s, budget_s)
         else:
             hurry = any(x["status"] == "different" for x in results)      # a difference is already known: spend less on the rest
             tmo, wl = (min(timeout_ms, 6000), min(wall_s, 20)) if hurry else (timeout_ms, wall_s)
+            left = UNIT_BUDGET_S - (time.time() - t0)                     # the whole unit should stay within a few minutes
+            tmo, wl = int(min(tmo, max(3000, left * 250))), min(wl, max(10, left / 3))
+            if left < 45:
+                hurry = True
             r, sig, kinds = compare_block(cur, pin, unit, fn, tmo, None, None, wl)
             slow = r["status"] == "unknown" and r.get("detail", "").startswith("z3:") or (r["status"] == "unsupported" and "limit" in r.get("detail", ""))
             if slow and (abs_cur or abs_pin) and not hurry:
@@ -892,7 +897,7 @@ def run_block_unit(unit, spec, repo, pinned, only, timeout_ms, wall_s, budget_s)
         # a replayable counterexample of this unit exists already; the undecided functions stay undecided
         need_seed = False
     if need_seed:
-        hit, tried, note = seed_search(cur, pin, unit, spec, repo, budget_s)
+        hit, tried, note = seed_search(cur, pin, unit, spec, repo, min(budget_s, max(15, UNIT_BUDGET_S - (time.time() - t0))))
         for r in results:
             if r["status"] == "different" and "replay" not in r:
                 if hit:
